@@ -428,7 +428,8 @@ fn issue_crafted(w: &mut World, step: usize) {
     "vc_issuer_object_with_description",
     "numeric_date_with_fraction",
     "base_context_not_first",
-  ][ctx::choose(11)];
+    "vc_issuance_agrees_with_iat_not_nbf",
+  ][ctx::choose(12)];
   let mut claims = serde_json::json!({
     "iss": p.did,
     "nbf": now_i - 100,
@@ -444,6 +445,13 @@ fn issue_crafted(w: &mut World, step: usize) {
     }
     "vc_issuer_mismatch" => claims["vc"]["issuer"] = "did:sim:someoneelse".into(),
     "vc_issuance_mismatch" => claims["vc"]["issuanceDate"] = crate::core::time::rfc3339(now_i - 5000).into(),
+    "vc_issuance_agrees_with_iat_not_nbf" => {
+      // nbf and iat both present and different; the duplicate inside `vc` repeats iat. The credential's issuance date
+      // is nbf: the duplicate disagrees with it (before or after it)
+      let iat = now_i - 100 + [-5000i64, 5000, 40_000_000][ctx::choose(3)];
+      claims["iat"] = Value::from(iat);
+      claims["vc"]["issuanceDate"] = crate::core::time::rfc3339(iat).into();
+    }
     "exp_out_of_range" => claims["exp"] = Value::from(1_000_000_000_000_000i64),
     "vc_issuer_object_with_description" => {
       // the duplicate inside `vc` describes the issuer (object form); the registered claim is the bare id: the two
@@ -645,7 +653,8 @@ fn present_crafted(w: &mut World, step: usize) {
     "iss_spelled_with_whitespace_or_uppercase_scheme",
     "holder_object_mismatch",
     "iss_is_the_controller_of_the_document",
-  ][ctx::choose(11)];
+    "holder_is_a_did_url_of_the_issuer",
+  ][ctx::choose(12)];
   let now_h = w.clock.now + w.parties[h].skew;
   let mut claims = serde_json::json!({
     "iss": p.did,
@@ -654,6 +663,10 @@ fn present_crafted(w: &mut World, step: usize) {
   });
   match kind {
     "holder_mismatch" => claims["vp"]["holder"] = "did:sim:someoneelse".into(),
+    // the duplicate is the issuer's DID followed by a fragment, path or query: a DID URL, not the DID the claim names
+    "holder_is_a_did_url_of_the_issuer" => {
+      claims["vp"]["holder"] = format!("{}{}", p.did, ["#key-of-somebody-else", "/agents/7", "?service=wallet"][ctx::choose(3)]).into()
+    }
     "holder_object_mismatch" => claims["vp"]["holder"] = serde_json::json!({"id": "did:sim:someoneelse", "name": "Somebody Else"}),
     "id_mismatch" => {
       claims["jti"] = "https://pres.example/a".into();
@@ -804,6 +817,16 @@ fn change_document(w: &mut World, step: usize, who: usize) {
 // Network / adversary
 // ---------------------------------------------------------------------------------------------------------------
 
+/// `%HH` at the end of the DID part, or directly before `/`, `?` or `#` (harness-own scan).
+fn octet_before_end_or_delimiter(s: &str) -> bool {
+  let b = s.as_bytes();
+  let did_end = b.iter().position(|c| matches!(c, b'/' | b'?' | b'#')).unwrap_or(b.len());
+  (0..b.len()).filter(|i| b[*i] == b'%').any(|i| match b.get(i + 3) {
+    None => i + 3 == b.len() && i < did_end,
+    Some(c) => matches!(c, b'/' | b'?' | b'#'),
+  })
+}
+
 #[derive(Debug, Clone, PartialEq)]
 enum Move {
   Intact,
@@ -872,10 +895,19 @@ fn deliver(w: &World, token: &str, other: Option<&str>, victim_kid: &str) -> (St
       ctx::sched("kidswap", 1);
       match parse_compact(token) {
         Some(mut p) => {
-          let new_kid = if ctx::choose(2) == 0 {
-            format!("{}#adv", adv.did)
-          } else {
-            format!("{}#other", did_of_url(victim_kid))
+          let new_kid = match ctx::choose(4) {
+            0 | 1 => format!("{}#adv", adv.did),
+            2 => format!("{}#other", did_of_url(victim_kid)),
+            _ => {
+              // a kid that ends in a percent-encoded octet (legal DID syntax), with or without a fragment
+              ctx::stat("fault.adversary.kid_ending_in_percent_encoded_octet");
+              match ctx::choose(4) {
+                0 => format!("{}%41", did_of_url(victim_kid)),
+                1 => "did:sim:abc%20".to_owned(),
+                2 => format!("{}#key%2D", did_of_url(victim_kid)),
+                _ => format!("{}%00", victim_kid),
+              }
+            }
           };
           p.header["kid"] = new_kid.into();
           format!("{}.{}.{}", b64(p.header.to_string().as_bytes()), parts[1], parts[2])
@@ -1105,6 +1137,13 @@ fn validate_credential(w: &mut World, step: usize) {
       } else if method_id.is_none() {
         pre = Some("MethodDataLookupError");
         pre_label = "kid";
+      } else if method_override.is_none() && kid.map(octet_before_end_or_delimiter).unwrap_or(false) {
+        // a kid that is legal DID URL syntax but of a form the library's pinned parser does not support (a
+        // percent-encoded octet at the end of the DID or directly before a delimiter): it names no method of the
+        // supplied document either way; "cannot be read" and "another document" both identify that
+        pre = Some("MethodDataLookupError|DocumentMismatch");
+        pre_label = "kid";
+        ctx::stat("false.kid_of_unsupported_form");
       } else {
         let mid = method_id.unwrap();
         method_did = did_of_url(&mid).to_owned();
